@@ -82,6 +82,7 @@ func main() {
 			os.Exit(2)
 		}
 		e.computeWrittenKeys()
+		e.computeNeedPrivate()
 		if os.Args[1] == "list" {
 			for _, k := range e.sortedFuncKeys() {
 				fmt.Println(k)
